@@ -46,6 +46,9 @@ CHECKS['C09'] = dict(tech=T + ' of evaluator nodes (Block, Scopeless_Block, If, 
 CHECKS['C20'] = dict(tech=T + ' of the lexer kernels started in a state satisfying the line/column invariant, and of Id() with make_node recorders',
    text='Coordinate invariant as an inductive step: from ANY cursor whose (line, col) equal 1 + newlines before it / 1 + bytes since the last newline, each lexer kernel (incl. every backtracking step) ends in a state satisfying the same equation, for all buffers up to N bytes; identifier nodes are created with the coordinates of the identifier\'s first byte. Any history of kernel calls therefore keeps locations exact.',
    note='trace plumbing (AST_Node_Impl::eval appending its own location, innermost first) and the error raised by Id/Fun_Call nodes are not covered yet; file names are not covered')
+CHECKS['C14'] = dict(tech=T + ' of every member of Thread_Storage<Stack_Holder> with the per-thread map as a recorder',
+   text='Key discipline that yields isolation for every create/use/destroy history on any threads and addresses: the key under which a storage object files per-thread state is never reused by a later object - checked for an arbitrary counter start, an arbitrary number of constructions in between and the second object at the SAME address - and every accessor and the destructor use exactly that key.',
+   note='the unordered_map itself is a recorder; counter wrap-around (2^64 constructions) excluded; an IR scan for other process-wide mutable statics is not implemented yet')
 ALL = ['C%02d' % i for i in range(1, 21)]
 def main():
     checks = []
